@@ -382,6 +382,12 @@ def family():
         [cf('note', '"n/a"', ('max_length', '50')), cf('qty', '0', ('null', 'false'))],
         [add('extra', '7'), cf('note', None, ('max_length', '30')), cf('score', '-1', ('null', 'false'))],
         [cf('qty', '0', ('null', 'false')), cf('score', '-1', ('null', 'false')), add('extra', '7')],
+        # a rename chain whose end is deleted, while another field takes over the name in the middle of the chain
+        [add('extra', '3'), cf('note', '"n/a"', ('null', 'false')),
+         {'t': 'RenameField', 'model': 'Alpha', 'old': 'score', 'new': 's1', 'db_column': None, 'db_table': None},
+         {'t': 'RenameField', 'model': 'Alpha', 'old': 's1', 'new': 's2', 'db_column': None, 'db_table': None},
+         {'t': 'RenameField', 'model': 'Alpha', 'old': 'qty', 'new': 's1', 'db_column': None, 'db_table': None},
+         {'t': 'DeleteField', 'model': 'Alpha', 'field': 's2'}],
         # a field made NOT NULL and renamed away, its name taken over by another field that is then deleted
         [cf('qty', '0', ('null', 'false')),
          {'t': 'RenameField', 'model': 'Alpha', 'old': 'qty', 'new': 'stock', 'db_column': None, 'db_table': None},
@@ -495,7 +501,9 @@ def judge_rows(sig0, muts, before, after):
                 if tc is not None and tc[0] == t1:
                     expected.add(tc[1])
             present = set(k for r in rows1.values() for k in r)
-            if not (present - expected):
+            holders = [x for x in (present - expected)
+                       if all(sval(rows1[pk].get(x)) == sval(r0.get(c0)) for pk, r0 in rows0.items())]
+            if not holders:
                 problems.append('column %s.%s is missing after the evolution and no other column holds its values'
                                 % (t1, c1))
             continue
